@@ -61,7 +61,7 @@ cleanup = _cleanup
 
 
 class Session:
-    def __init__(self, sources: dict[str, str] | None = None, cache: bool = True, transpiler_env: dict | None = None, extra_defs: dict | None = None, template_override: bool = False, view_env: dict | None = None, root: str | None = None) -> None:
+    def __init__(self, sources: dict[str, str] | None = None, cache: bool = True, transpiler_env: dict | None = None, extra_defs: dict | None = None, template_override: bool = False, view_env: dict | None = None, root: str | None = None, targets: list | None = None) -> None:
         from rogw.tranp.app.app import App
         from rogw.tranp.cache.cache import CacheSetting
         from rogw.tranp.data.meta.types import ModuleMetaFactory
@@ -111,7 +111,8 @@ class Session:
 
         defs = {
             to_fullyname(ITranspiler): Py2Cpp,
-            to_fullyname(ModulePaths): lambda: ModulePaths([ModulePath(name, language='py') for name in session.sources.keys()]),
+            # (targets: the modules listed for transpilation; the other sources are reachable through imports only)
+            to_fullyname(ModulePaths): lambda: ModulePaths([ModulePath(name, language='py') for name in (targets if targets is not None else session.sources.keys())]),
             to_fullyname(Renderer): Renderer,
             to_fullyname(RendererEmitter): Middleware,
             to_fullyname(RendererHelperProvider): renderer_helper_provider_cpp,
